@@ -27,6 +27,19 @@ package websocket
 //@   goroutine summary
 
 //@ spec fn joined(h *RealtimeHandler) bool = h.currentSession != nil && h.currentParticipant != nil
+// What SESSION_STATE hands to a joiner (C01): exactly the members, exactly the entities with owner, flag
+// and latest pose, exactly the stored components.
+//@ spec fn snapParts(s *models.Session, ps []*hagallpb.Participant) bool = len(ps) == len(s.participants)
+//@     && (forall j: int :: 0 <= j && j < len(ps) ==> ps[j] != nil && ps[j].Id in s.participants)
+//@     && (forall k: uint32 :: k in s.participants ==> exists j: int :: 0 <= j && j < len(ps) && ps[j].Id == k)
+//@ spec fn snapEnts(s *models.Session, es []*hagallpb.Entity) bool = len(es) == len(s.entities)
+//@     && (forall k: uint32 :: k in s.entities ==> exists j: int :: 0 <= j && j < len(es) && es[j].Id == k)
+//@     && (forall j: int :: 0 <= j && j < len(es) ==> es[j] != nil && es[j].Id in s.entities && es[j].ParticipantId == s.entities[es[j].Id].ParticipantID && es[j].Flag == s.entities[es[j].Id].Flag
+//@          && es[j].Pose != nil && es[j].Pose.Px == s.entities[es[j].Id].pose.PX && es[j].Pose.Py == s.entities[es[j].Id].pose.PY && es[j].Pose.Pz == s.entities[es[j].Id].pose.PZ
+//@          && es[j].Pose.Rx == s.entities[es[j].Id].pose.RX && es[j].Pose.Ry == s.entities[es[j].Id].pose.RY && es[j].Pose.Rz == s.entities[es[j].Id].pose.RZ && es[j].Pose.Rw == s.entities[es[j].Id].pose.RW)
+//@ spec fn snapComps(c *models.EntityComponentStore, cs []*hagallpb.EntityComponent) bool =
+//@     (forall j: int :: 0 <= j && j < len(cs) ==> cs[j] != nil && hasComp(c, cs[j].EntityComponentTypeId, cs[j].EntityId) && compAt(c, cs[j].EntityComponentTypeId, cs[j].EntityId) == cs[j])
+//@     && (forall t: uint32, e: uint32 :: hasComp(c, t, e) ==> exists j: int :: 0 <= j && j < len(cs) && cs[j] == compAt(c, t, e))
 //@ spec fn wfHandler(h *RealtimeHandler) bool = h.Sessions != nil
 //@     && ((h.currentSession == nil) <==> (h.currentParticipant == nil))
 //@     && (h.currentSession != nil ==> wfSession(h.currentSession) && member(h.currentSession, h.currentParticipant))
@@ -45,25 +58,25 @@ package websocket
 //@   behaviour undecodable:
 //@     assumes !decode_ok(msg)
 //@     ensures {C04} result != nil && unchanged_world()
-//@     emits {C04,C02} []
+//@     emits {C04,C02,C01} []
 //@   behaviour not_joined:
 //@     assumes decode_ok(msg) && !joined(h)
 //@     ensures {C04,C03} result != nil && unchanged_world()
-//@     emits {C04,C02,C03} []
+//@     emits {C04,C02,C03,C01} []
 //@   behaviour unknown:
 //@     assumes decode_ok(msg) && joined(h) && !(id in S.entities)
 //@     ensures {C04} result == nil && unchanged_world()
-//@     emits {C04,C02} [send(respond, hagallpb.ErrorResponse{Type: hagallpb.MsgType_MSG_TYPE_ERROR_RESPONSE, RequestId: req.RequestId, Code: hagallpb.ErrorCode_ERROR_CODE_NOT_FOUND})]
+//@     emits {C04,C02,C01} [send(respond, hagallpb.ErrorResponse{Type: hagallpb.MsgType_MSG_TYPE_ERROR_RESPONSE, RequestId: req.RequestId, Code: hagallpb.ErrorCode_ERROR_CODE_NOT_FOUND})]
 //@   behaviour foreign:
 //@     assumes decode_ok(msg) && joined(h) && id in S.entities && S.entities[id].ParticipantID != P.ID
-//@     ensures {C04,C05} result == nil && unchanged_world()
-//@     emits {C04,C05,C02} [send(respond, hagallpb.ErrorResponse{Type: hagallpb.MsgType_MSG_TYPE_ERROR_RESPONSE, RequestId: req.RequestId, Code: hagallpb.ErrorCode_ERROR_CODE_UNAUTHORIZED})]
+//@     ensures {C04,C05,C01} result == nil && unchanged_world()
+//@     emits {C04,C05,C02,C01} [send(respond, hagallpb.ErrorResponse{Type: hagallpb.MsgType_MSG_TYPE_ERROR_RESPONSE, RequestId: req.RequestId, Code: hagallpb.ErrorCode_ERROR_CODE_UNAUTHORIZED})]
 //@   behaviour deleted:
 //@     assumes decode_ok(msg) && joined(h) && id in S.entities && S.entities[id].ParticipantID == P.ID
 //@     ensures {C04} result == nil
-//@     ensures {C12,C06} forall t: uint32, e: uint32 :: hasComp(S.entityComponents, t, e) <==> (old(hasComp(S.entityComponents, t, e)) && e != id)
-//@     ensures {C05} forall e: uint32 :: (e in S.entities) <==> (old(e in S.entities) && e != id)
-//@     emits {C04,C02} [send(respond, hagallpb.EntityDeleteResponse{Type: hagallpb.MsgType_MSG_TYPE_ENTITY_DELETE_RESPONSE, RequestId: req.RequestId}); when !flag(h.FeatureFlags, featureflag.FlagDisableEntityDeleteBroadcast) =>> Broadcast(S, P, hagallpb.EntityDeleteBroadcast{Type: hagallpb.MsgType_MSG_TYPE_ENTITY_DELETE_BROADCAST, OriginTimestamp: req.Timestamp, EntityId: id})]
+//@     ensures {C12,C06,C01} forall t: uint32, e: uint32 :: hasComp(S.entityComponents, t, e) <==> (old(hasComp(S.entityComponents, t, e)) && e != id)
+//@     ensures {C05,C01} forall e: uint32 :: (e in S.entities) <==> (old(e in S.entities) && e != id)
+//@     emits {C04,C02,C01} [send(respond, hagallpb.EntityDeleteResponse{Type: hagallpb.MsgType_MSG_TYPE_ENTITY_DELETE_RESPONSE, RequestId: req.RequestId}); when !flag(h.FeatureFlags, featureflag.FlagDisableEntityDeleteBroadcast) =>> Broadcast(S, P, hagallpb.EntityDeleteBroadcast{Type: hagallpb.MsgType_MSG_TYPE_ENTITY_DELETE_BROADCAST, OriginTimestamp: req.Timestamp, EntityId: id})]
 //@   complete behaviours
 //@   disjoint behaviours
 
@@ -98,21 +111,21 @@ package websocket
 //@   behaviour undecodable:
 //@     assumes !decode_ok(msg)
 //@     ensures {C04} result != nil && unchanged_world()
-//@     emits {C04,C02} []
+//@     emits {C04,C02,C01} []
 //@   behaviour not_joined:
 //@     assumes decode_ok(msg) && !joined(h)
 //@     ensures {C04,C03} result != nil && unchanged_world()
-//@     emits {C04,C02,C03} []
+//@     emits {C04,C02,C03,C01} []
 //@   behaviour added:
 //@     assumes decode_ok(msg) && joined(h)
 //@     ensures {C04} result == nil
-//@     ensures {C10} !old(eid in S.entities) && eid in S.entities && S.entities[eid].ID == eid
-//@     ensures {C05} S.entities[eid].ParticipantID == P.ID && S.entities[eid].Persist == req.Persist && S.entities[eid].Flag == req.Flag
+//@     ensures {C10,C01} !old(eid in S.entities) && eid in S.entities && S.entities[eid].ID == eid
+//@     ensures {C05,C01} S.entities[eid].ParticipantID == P.ID && S.entities[eid].Persist == req.Persist && S.entities[eid].Flag == req.Flag
 //@     ensures {C11,C01} req.Pose != nil ==> S.entities[eid].pose.PX == req.Pose.Px && S.entities[eid].pose.PY == req.Pose.Py && S.entities[eid].pose.PZ == req.Pose.Pz && S.entities[eid].pose.RX == req.Pose.Rx && S.entities[eid].pose.RY == req.Pose.Ry && S.entities[eid].pose.RZ == req.Pose.Rz && S.entities[eid].pose.RW == req.Pose.Rw
 //@     ensures {C05,C01} forall e: uint32 :: e != eid ==> ((e in S.entities) <==> old(e in S.entities)) && (e in S.entities ==> S.entities[e] == old(S.entities[e]))
-//@     ensures {C06} eid in P.entityIDs
-//@     ensures {C12} forall t: uint32, e: uint32 :: hasComp(S.entityComponents, t, e) <==> old(hasComp(S.entityComponents, t, e))
-//@     emits {C04,C02} [send(respond, hagallpb.EntityAddResponse{Type: hagallpb.MsgType_MSG_TYPE_ENTITY_ADD_RESPONSE, RequestId: req.RequestId, EntityId: eid}); when !flag(h.FeatureFlags, featureflag.FlagDisableEntityAddBroadcast) =>> Broadcast(S, P, hagallpb.EntityAddBroadcast{Type: hagallpb.MsgType_MSG_TYPE_ENTITY_ADD_BROADCAST, OriginTimestamp: req.Timestamp, Entity: hagallpb.Entity{Id: eid, ParticipantId: P.ID, Flag: req.Flag}})]
+//@     ensures {C06,C01} eid in P.entityIDs
+//@     ensures {C12,C01} forall t: uint32, e: uint32 :: hasComp(S.entityComponents, t, e) <==> old(hasComp(S.entityComponents, t, e))
+//@     emits {C04,C02,C01} [send(respond, hagallpb.EntityAddResponse{Type: hagallpb.MsgType_MSG_TYPE_ENTITY_ADD_RESPONSE, RequestId: req.RequestId, EntityId: eid}); when !flag(h.FeatureFlags, featureflag.FlagDisableEntityAddBroadcast) =>> Broadcast(S, P, hagallpb.EntityAddBroadcast{Type: hagallpb.MsgType_MSG_TYPE_ENTITY_ADD_BROADCAST, OriginTimestamp: req.Timestamp, Entity: hagallpb.Entity{Id: eid, ParticipantId: P.ID, Flag: req.Flag}})]
 //@   complete behaviours
 //@   disjoint behaviours
 
@@ -129,29 +142,29 @@ package websocket
 //@   behaviour undecodable:
 //@     assumes !decode_ok(msg)
 //@     ensures result != nil && unchanged_world()
-//@     emits {C11,C02} []
+//@     emits {C11,C02,C01} []
 //@   behaviour not_joined:
 //@     assumes decode_ok(msg) && !joined(h)
 //@     ensures {C04,C03} result != nil && unchanged_world()
-//@     emits {C04,C02,C03} []
+//@     emits {C04,C02,C03,C01} []
 //@   behaviour unknown:
 //@     assumes decode_ok(msg) && joined(h) && !(id in S.entities)
-//@     ensures {C11} result == nil && unchanged_world()
-//@     emits {C11,C02} []
+//@     ensures {C11,C01} result == nil && unchanged_world()
+//@     emits {C11,C02,C01} []
 //@   behaviour foreign:
 //@     assumes decode_ok(msg) && joined(h) && id in S.entities && S.entities[id].ParticipantID != P.ID
-//@     ensures {C11,C05} result == nil && unchanged_world()
-//@     emits {C11,C05,C02} []
+//@     ensures {C11,C05,C01} result == nil && unchanged_world()
+//@     emits {C11,C05,C02,C01} []
 //@   behaviour no_pose:
 //@     assumes decode_ok(msg) && joined(h) && id in S.entities && S.entities[id].ParticipantID == P.ID && req.Pose == nil
-//@     ensures {C11} result == nil && unchanged_world()
-//@     emits {C11,C02} []
+//@     ensures {C11,C01} result == nil && unchanged_world()
+//@     emits {C11,C02,C01} []
 //@   behaviour moved:
 //@     assumes decode_ok(msg) && joined(h) && id in S.entities && S.entities[id].ParticipantID == P.ID && req.Pose != nil
-//@     ensures {C11} result == nil
+//@     ensures {C11,C01} result == nil
 //@     ensures {C11,C01} S.entities[id].pose.PX == req.Pose.Px && S.entities[id].pose.PY == req.Pose.Py && S.entities[id].pose.PZ == req.Pose.Pz && S.entities[id].pose.RX == req.Pose.Rx && S.entities[id].pose.RY == req.Pose.Ry && S.entities[id].pose.RZ == req.Pose.Rz && S.entities[id].pose.RW == req.Pose.Rw
-//@     ensures {C11} unchanged_except("models.Entity.pose")
-//@     emits {C11,C02} [when !flag(h.FeatureFlags, featureflag.FlagDisableEntityUpdatePoseBroadcast) =>> Broadcast(S, P, hagallpb.EntityUpdatePoseBroadcast{Type: hagallpb.MsgType_MSG_TYPE_ENTITY_UPDATE_POSE_BROADCAST, OriginTimestamp: req.Timestamp, EntityId: id, Pose: hagallpb.Pose{Px: req.Pose.Px, Py: req.Pose.Py, Pz: req.Pose.Pz, Rx: req.Pose.Rx, Ry: req.Pose.Ry, Rz: req.Pose.Rz, Rw: req.Pose.Rw}})]
+//@     ensures {C11,C01} unchanged_except("models.Entity.pose")
+//@     emits {C11,C02,C01} [when !flag(h.FeatureFlags, featureflag.FlagDisableEntityUpdatePoseBroadcast) =>> Broadcast(S, P, hagallpb.EntityUpdatePoseBroadcast{Type: hagallpb.MsgType_MSG_TYPE_ENTITY_UPDATE_POSE_BROADCAST, OriginTimestamp: req.Timestamp, EntityId: id, Pose: hagallpb.Pose{Px: req.Pose.Px, Py: req.Pose.Py, Pz: req.Pose.Pz, Rx: req.Pose.Rx, Ry: req.Pose.Ry, Rz: req.Pose.Rz, Rw: req.Pose.Rw}})]
 //@   complete behaviours
 //@   disjoint behaviours
 
@@ -316,21 +329,21 @@ package websocket
 //@     emits {C04,C03} []
 //@   behaviour no_entity:
 //@     assumes decode_ok(msg) && T != 0 && E != 0 && joined(h) && !(E in S.entities)
-//@     ensures {C12} result == nil && unchanged_world()
-//@     emits {C12,C04} [send(respond, hagallpb.ErrorResponse{Type: hagallpb.MsgType_MSG_TYPE_ERROR_RESPONSE, RequestId: req.RequestId, Code: hagallpb.ErrorCode_ERROR_CODE_NOT_FOUND})]
+//@     ensures {C12,C01} result == nil && unchanged_world()
+//@     emits {C12,C04,C01} [send(respond, hagallpb.ErrorResponse{Type: hagallpb.MsgType_MSG_TYPE_ERROR_RESPONSE, RequestId: req.RequestId, Code: hagallpb.ErrorCode_ERROR_CODE_NOT_FOUND})]
 //@   behaviour unregistered:
 //@     assumes decode_ok(msg) && T != 0 && E != 0 && joined(h) && E in S.entities && !(T in C.nameIndex)
-//@     ensures {C12} result == nil && forall t: uint32, e: uint32 :: hasComp(C, t, e) <==> old(hasComp(C, t, e))
-//@     emits {C12,C04} [send(respond, hagallpb.ErrorResponse{Type: hagallpb.MsgType_MSG_TYPE_ERROR_RESPONSE, RequestId: req.RequestId, Code: hagallpb.ErrorCode_ERROR_CODE_NOT_FOUND})]
+//@     ensures {C12,C01} result == nil && forall t: uint32, e: uint32 :: hasComp(C, t, e) <==> old(hasComp(C, t, e))
+//@     emits {C12,C04,C01} [send(respond, hagallpb.ErrorResponse{Type: hagallpb.MsgType_MSG_TYPE_ERROR_RESPONSE, RequestId: req.RequestId, Code: hagallpb.ErrorCode_ERROR_CODE_NOT_FOUND})]
 //@   behaviour duplicate:
 //@     assumes decode_ok(msg) && T != 0 && E != 0 && joined(h) && E in S.entities && T in C.nameIndex && hasComp(C, T, E)
-//@     ensures {C12} result == nil && forall t: uint32, e: uint32 :: (hasComp(C, t, e) <==> old(hasComp(C, t, e))) && (hasComp(C, t, e) ==> compAt(C, t, e) == old(compAt(C, t, e)))
-//@     emits {C12,C04} [send(respond, hagallpb.ErrorResponse{Type: hagallpb.MsgType_MSG_TYPE_ERROR_RESPONSE, RequestId: req.RequestId, Code: hagallpb.ErrorCode_ERROR_CODE_CONFLICT})]
+//@     ensures {C12,C01} result == nil && forall t: uint32, e: uint32 :: (hasComp(C, t, e) <==> old(hasComp(C, t, e))) && (hasComp(C, t, e) ==> compAt(C, t, e) == old(compAt(C, t, e)))
+//@     emits {C12,C04,C01} [send(respond, hagallpb.ErrorResponse{Type: hagallpb.MsgType_MSG_TYPE_ERROR_RESPONSE, RequestId: req.RequestId, Code: hagallpb.ErrorCode_ERROR_CODE_CONFLICT})]
 //@   behaviour added:
 //@     assumes decode_ok(msg) && T != 0 && E != 0 && joined(h) && E in S.entities && T in C.nameIndex && !hasComp(C, T, E)
-//@     ensures {C12} result == nil && hasComp(C, T, E) && compAt(C, T, E).Data == req.Data
-//@     ensures {C12} forall t: uint32, e: uint32 :: (t != T || e != E) ==> (hasComp(C, t, e) <==> old(hasComp(C, t, e))) && (hasComp(C, t, e) ==> compAt(C, t, e) == old(compAt(C, t, e)))
-//@     emits {C12,C13,C04} [send(respond, hagallpb.EntityComponentAddResponse{Type: hagallpb.MsgType_MSG_TYPE_ENTITY_COMPONENT_ADD_RESPONSE, RequestId: req.RequestId}); when !flag(h.FeatureFlags, featureflag.FlagDisableEntityComponentAddBroadcast) && subscriberCount(C, T) > 0 =>> Broadcast(S, P, hagallpb.EntityComponentAddBroadcast{Type: hagallpb.MsgType_MSG_TYPE_ENTITY_COMPONENT_ADD_BROADCAST, OriginTimestamp: req.Timestamp, EntityComponent: hagallpb.EntityComponent{EntityComponentTypeId: T, EntityId: E, Data: req.Data}})]
+//@     ensures {C12,C01} result == nil && hasComp(C, T, E) && compAt(C, T, E).Data == req.Data
+//@     ensures {C12,C01} forall t: uint32, e: uint32 :: (t != T || e != E) ==> (hasComp(C, t, e) <==> old(hasComp(C, t, e))) && (hasComp(C, t, e) ==> compAt(C, t, e) == old(compAt(C, t, e)))
+//@     emits {C12,C13,C04,C01} [send(respond, hagallpb.EntityComponentAddResponse{Type: hagallpb.MsgType_MSG_TYPE_ENTITY_COMPONENT_ADD_RESPONSE, RequestId: req.RequestId}); when !flag(h.FeatureFlags, featureflag.FlagDisableEntityComponentAddBroadcast) && subscriberCount(C, T) > 0 =>> Broadcast(S, P, hagallpb.EntityComponentAddBroadcast{Type: hagallpb.MsgType_MSG_TYPE_ENTITY_COMPONENT_ADD_BROADCAST, OriginTimestamp: req.Timestamp, EntityComponent: hagallpb.EntityComponent{EntityComponentTypeId: T, EntityId: E, Data: req.Data}})]
 //@   complete behaviours
 //@   disjoint behaviours
 
@@ -360,17 +373,17 @@ package websocket
 //@     emits {C04,C03} []
 //@   behaviour no_entity:
 //@     assumes decode_ok(msg) && T != 0 && E != 0 && joined(h) && !(E in S.entities)
-//@     ensures {C12} result == nil && unchanged_world()
-//@     emits {C12,C04} [send(respond, hagallpb.ErrorResponse{Type: hagallpb.MsgType_MSG_TYPE_ERROR_RESPONSE, RequestId: req.RequestId, Code: hagallpb.ErrorCode_ERROR_CODE_NOT_FOUND})]
+//@     ensures {C12,C01} result == nil && unchanged_world()
+//@     emits {C12,C04,C01} [send(respond, hagallpb.ErrorResponse{Type: hagallpb.MsgType_MSG_TYPE_ERROR_RESPONSE, RequestId: req.RequestId, Code: hagallpb.ErrorCode_ERROR_CODE_NOT_FOUND})]
 //@   behaviour absent:
 //@     assumes decode_ok(msg) && T != 0 && E != 0 && joined(h) && E in S.entities && !hasComp(C, T, E)
-//@     ensures {C12} result == nil && forall t: uint32, e: uint32 :: (hasComp(C, t, e) <==> old(hasComp(C, t, e))) && (hasComp(C, t, e) ==> compAt(C, t, e) == old(compAt(C, t, e)))
-//@     emits {C12,C04} [send(respond, hagallpb.ErrorResponse{Type: hagallpb.MsgType_MSG_TYPE_ERROR_RESPONSE, RequestId: req.RequestId, Code: hagallpb.ErrorCode_ERROR_CODE_NOT_FOUND})]
+//@     ensures {C12,C01} result == nil && forall t: uint32, e: uint32 :: (hasComp(C, t, e) <==> old(hasComp(C, t, e))) && (hasComp(C, t, e) ==> compAt(C, t, e) == old(compAt(C, t, e)))
+//@     emits {C12,C04,C01} [send(respond, hagallpb.ErrorResponse{Type: hagallpb.MsgType_MSG_TYPE_ERROR_RESPONSE, RequestId: req.RequestId, Code: hagallpb.ErrorCode_ERROR_CODE_NOT_FOUND})]
 //@   behaviour deleted:
 //@     assumes decode_ok(msg) && T != 0 && E != 0 && joined(h) && E in S.entities && hasComp(C, T, E)
-//@     ensures {C12} result == nil && !hasComp(C, T, E)
-//@     ensures {C12} forall t: uint32, e: uint32 :: (t != T || e != E) ==> (hasComp(C, t, e) <==> old(hasComp(C, t, e))) && (hasComp(C, t, e) ==> compAt(C, t, e) == old(compAt(C, t, e)))
-//@     emits {C12,C13,C04} [when !flag(h.FeatureFlags, featureflag.FlagDisableEntityComponentDeleteBroadcast) && subscriberCount(C, T) > 0 =>> Broadcast(S, P, hagallpb.EntityComponentDeleteBroadcast{Type: hagallpb.MsgType_MSG_TYPE_ENTITY_COMPONENT_DELETE_BROADCAST, OriginTimestamp: req.Timestamp, EntityComponent: hagallpb.EntityComponent{EntityComponentTypeId: T, EntityId: E}}); send(respond, hagallpb.EntityComponentDeleteResponse{Type: hagallpb.MsgType_MSG_TYPE_ENTITY_COMPONENT_DELETE_RESPONSE, RequestId: req.RequestId})]
+//@     ensures {C12,C01} result == nil && !hasComp(C, T, E)
+//@     ensures {C12,C01} forall t: uint32, e: uint32 :: (t != T || e != E) ==> (hasComp(C, t, e) <==> old(hasComp(C, t, e))) && (hasComp(C, t, e) ==> compAt(C, t, e) == old(compAt(C, t, e)))
+//@     emits {C12,C13,C04,C01} [when !flag(h.FeatureFlags, featureflag.FlagDisableEntityComponentDeleteBroadcast) && subscriberCount(C, T) > 0 =>> Broadcast(S, P, hagallpb.EntityComponentDeleteBroadcast{Type: hagallpb.MsgType_MSG_TYPE_ENTITY_COMPONENT_DELETE_BROADCAST, OriginTimestamp: req.Timestamp, EntityComponent: hagallpb.EntityComponent{EntityComponentTypeId: T, EntityId: E}}); send(respond, hagallpb.EntityComponentDeleteResponse{Type: hagallpb.MsgType_MSG_TYPE_ENTITY_COMPONENT_DELETE_RESPONSE, RequestId: req.RequestId})]
 //@   complete behaviours
 //@   disjoint behaviours
 
@@ -400,17 +413,17 @@ package websocket
 //@     emits {C04,C03} []
 //@   behaviour no_entity:
 //@     assumes decode_ok(msg) && T != 0 && E != 0 && joined(h) && !(E in S.entities)
-//@     ensures {C12} result == nil && unchanged_world()
-//@     emits {C12,C13} []
+//@     ensures {C12,C01} result == nil && unchanged_world()
+//@     emits {C12,C13,C01} []
 //@   behaviour absent:
 //@     assumes decode_ok(msg) && T != 0 && E != 0 && joined(h) && E in S.entities && !hasComp(C, T, E)
-//@     ensures {C12} result == nil && forall t: uint32, e: uint32 :: (hasComp(C, t, e) <==> old(hasComp(C, t, e))) && (hasComp(C, t, e) ==> compAt(C, t, e) == old(compAt(C, t, e)))
+//@     ensures {C12,C01} result == nil && forall t: uint32, e: uint32 :: (hasComp(C, t, e) <==> old(hasComp(C, t, e))) && (hasComp(C, t, e) ==> compAt(C, t, e) == old(compAt(C, t, e)))
 //@     emits {C12,C13,C01} []
 //@   behaviour present:
 //@     assumes decode_ok(msg) && T != 0 && E != 0 && joined(h) && E in S.entities && hasComp(C, T, E)
-//@     ensures {C12} result == nil && hasComp(C, T, E) && compAt(C, T, E).Data == req.Data
-//@     ensures {C12} forall t: uint32, e: uint32 :: (hasComp(C, t, e) <==> old(hasComp(C, t, e))) && ((t != T || e != E) && hasComp(C, t, e) ==> compAt(C, t, e) == old(compAt(C, t, e)))
-//@     emits {C12,C13} [when !flag(h.FeatureFlags, featureflag.FlagDisableEntityComponentUpdateBroadcast) && subscriberCount(C, T) > 0 =>> BroadcastTo(S, P, hagallpb.EntityComponentUpdateBroadcast{Type: hagallpb.MsgType_MSG_TYPE_ENTITY_COMPONENT_UPDATE_BROADCAST, OriginTimestamp: req.Timestamp, EntityComponent: hagallpb.EntityComponent{EntityComponentTypeId: T, EntityId: E, Data: req.Data}}, _)]
+//@     ensures {C12,C01} result == nil && hasComp(C, T, E) && compAt(C, T, E).Data == req.Data
+//@     ensures {C12,C01} forall t: uint32, e: uint32 :: (hasComp(C, t, e) <==> old(hasComp(C, t, e))) && ((t != T || e != E) && hasComp(C, t, e) ==> compAt(C, t, e) == old(compAt(C, t, e)))
+//@     emits {C12,C13,C01} [when !flag(h.FeatureFlags, featureflag.FlagDisableEntityComponentUpdateBroadcast) && subscriberCount(C, T) > 0 =>> BroadcastTo(S, P, hagallpb.EntityComponentUpdateBroadcast{Type: hagallpb.MsgType_MSG_TYPE_ENTITY_COMPONENT_UPDATE_BROADCAST, OriginTimestamp: req.Timestamp, EntityComponent: hagallpb.EntityComponent{EntityComponentTypeId: T, EntityId: E, Data: req.Data}}, _)]
 //@   complete behaviours
 //@   disjoint behaviours
 
@@ -465,13 +478,18 @@ package websocket
 //@     emits {C04,C03} []
 //@   behaviour unregistered:
 //@     assumes decode_ok(msg) && T != 0 && joined(h) && !(T in C.nameIndex)
-//@     ensures {C13} result == nil && forall t: uint32, p: uint32 :: subscribed(C, t, p) <==> old(subscribed(C, t, p))
-//@     emits {C13,C04} [send(respond, hagallpb.ErrorResponse{Type: hagallpb.MsgType_MSG_TYPE_ERROR_RESPONSE, RequestId: req.RequestId, Code: hagallpb.ErrorCode_ERROR_CODE_NOT_FOUND})]
+//@     ensures {C13,C01} result == nil && forall t: uint32, p: uint32 :: subscribed(C, t, p) <==> old(subscribed(C, t, p))
+//@     emits {C13,C04,C01} [send(respond, hagallpb.ErrorResponse{Type: hagallpb.MsgType_MSG_TYPE_ERROR_RESPONSE, RequestId: req.RequestId, Code: hagallpb.ErrorCode_ERROR_CODE_NOT_FOUND})]
 //@   behaviour subscribed:
 //@     assumes decode_ok(msg) && T != 0 && joined(h) && T in C.nameIndex
-//@     ensures {C13} result == nil && subscribed(C, T, P.ID)
-//@     ensures {C13} forall t: uint32, p: uint32 :: (t != T || p != P.ID) ==> (subscribed(C, t, p) <==> old(subscribed(C, t, p)))
-//@     emits {C13,C04} [send(respond, hagallpb.EntityComponentTypeSubscribeResponse{Type: hagallpb.MsgType_MSG_TYPE_ENTITY_COMPONENT_TYPE_SUBSCRIBE_RESPONSE, RequestId: req.RequestId})]
+//@     ensures {C13,C01} result == nil && subscribed(C, T, P.ID)
+//@     ensures {C13,C01} forall t: uint32, p: uint32 :: (t != T || p != P.ID) ==> (subscribed(C, t, p) <==> old(subscribed(C, t, p)))
+// C01 step lemma for a new subscription: from now on the subscriber's view must hold the components of
+// this type, but nothing is handed to it here and none of their adds were relayed to it while it was
+// not subscribed - the lemma holds only if there are none. It does NOT hold for the code as it is
+// (finding D12, listed in /verif/known_findings.txt): the clause is kept so that the gap stays visible.
+//@     ensures {C01} !old(subscribed(C, T, P.ID)) ==> forall e: uint32 :: !hasComp(C, T, e)
+//@     emits {C13,C04,C01} [send(respond, hagallpb.EntityComponentTypeSubscribeResponse{Type: hagallpb.MsgType_MSG_TYPE_ENTITY_COMPONENT_TYPE_SUBSCRIBE_RESPONSE, RequestId: req.RequestId})]
 //@   complete behaviours
 //@   disjoint behaviours
 
@@ -499,9 +517,9 @@ package websocket
 //@     emits {C04,C03} []
 //@   behaviour unsubscribed:
 //@     assumes decode_ok(msg) && T != 0 && joined(h)
-//@     ensures {C13} result == nil && !subscribed(C, T, P.ID)
-//@     ensures {C13} forall t: uint32, p: uint32 :: (t != T || p != P.ID) ==> (subscribed(C, t, p) <==> old(subscribed(C, t, p)))
-//@     emits {C13,C04} [send(respond, hagallpb.EntityComponentTypeUnsubscribeResponse{Type: hagallpb.MsgType_MSG_TYPE_ENTITY_COMPONENT_TYPE_UNSUBSCRIBE_RESPONSE, RequestId: req.RequestId})]
+//@     ensures {C13,C01} result == nil && !subscribed(C, T, P.ID)
+//@     ensures {C13,C01} forall t: uint32, p: uint32 :: (t != T || p != P.ID) ==> (subscribed(C, t, p) <==> old(subscribed(C, t, p)))
+//@     emits {C13,C04,C01} [send(respond, hagallpb.EntityComponentTypeUnsubscribeResponse{Type: hagallpb.MsgType_MSG_TYPE_ENTITY_COMPONENT_TYPE_UNSUBSCRIBE_RESPONSE, RequestId: req.RequestId})]
 //@   complete behaviours
 //@   disjoint behaviours
 
@@ -552,7 +570,7 @@ package websocket
 //@   modifies all modules/*, all ghost.*
 //@   allocates
 //@   ensures h.currentSession == nil && h.currentParticipant == nil && wfRegistry(h.Sessions)
-//@   ensures {C07} forall g: string :: S != nil && g != gid(serverid(R.DiscoveryService), S.ID) ==> ((g in R.sessions) <==> old(g in R.sessions)) && (g in R.sessions ==> R.sessions[g] == old(R.sessions[g]))
+//@   ensures {C07,C01} forall g: string :: S != nil && g != gid(serverid(R.DiscoveryService), S.ID) ==> ((g in R.sessions) <==> old(g in R.sessions)) && (g in R.sessions ==> R.sessions[g] == old(R.sessions[g]))
 //@   ensures unchanged(R.sessions, R.DiscoveryService, R.ids.currentID) && (once_done(R.initOnce) <==> old(once_done(R.initOnce)))
 //@   trusted_ensures forall g: string :: S != nil && g != gid(serverid(R.DiscoveryService), S.ID) && old(g in R.sessions) && old(wfSession(R.sessions[g])) ==> wfSession(old(R.sessions[g])) && same_contents(old(R.sessions[g]).participants, old(R.sessions[g]).entities) && unchanged(old(R.sessions[g]).participantIDs.currentID, old(R.sessions[g]).frameHandlerIDs.currentID, old(R.sessions[g]).ID)
 //@   behaviour not_joined:
@@ -560,18 +578,18 @@ package websocket
 //@     ensures unchanged_world()
 //@   behaviour left:
 //@     assumes joined(h)
-//@     ensures {C06,C05,C10} wfIDs(S) && wfOwnership(S)
+//@     ensures {C06,C05,C10,C01} wfIDs(S) && wfOwnership(S)
 //@     ensures wfSession(S)
-//@     ensures {C06} forall e: uint32 :: (e in S.entities) <==> (old(e in S.entities) && !old(gone(S, P.ID, e)))
-//@     ensures {C06} forall e: uint32 :: e in S.entities ==> S.entities[e] == old(S.entities[e])
-//@     ensures {C06,C12} forall t: uint32, e: uint32 :: (hasComp(C, t, e) <==> (old(hasComp(C, t, e)) && !old(gone(S, P.ID, e)))) && (hasComp(C, t, e) ==> compAt(C, t, e) == old(compAt(C, t, e)))
-//@     ensures {C06,C13} forall t: uint32, p: uint32 :: subscribed(C, t, p) <==> (old(subscribed(C, t, p)) && p != P.ID)
-//@     ensures {C06} forall p: uint32 :: (p in S.participants) <==> (old(p in S.participants) && p != P.ID)
-//@     ensures {C06} forall p: uint32 :: p in S.participants ==> S.participants[p] == old(S.participants[p])
-//@     ensures {C06,C02} forall e: uint32 :: evcount(Broadcast, hagallpb.EntityDeleteBroadcast, EntityId, e) == old(evcount(Broadcast, hagallpb.EntityDeleteBroadcast, EntityId, e)) + ite(old(gone(S, P.ID, e)) && !flag(h.FeatureFlags, featureflag.FlagDisableEntityDeleteBroadcast), 1, 0)
-//@     ensures {C07} (len(S.participants) == 0) <==> !registered(R, S)
-//@     ensures {C07} len(S.participants) == 0 ==> once_done(S.closeOnce)
-//@     emits {C06,C02} [when h.stopFrameHandling != nil =>> callfn(h.stopFrameHandling); when !flag(h.FeatureFlags, featureflag.FlagDisableParticipantLeaveBroadcast) =>> Broadcast(S, P, hagallpb.ParticipantLeaveBroadcast{Type: hagallpb.MsgType_MSG_TYPE_PARTICIPANT_LEAVE_BROADCAST, ParticipantId: P.ID})]
+//@     ensures {C06,C01} forall e: uint32 :: (e in S.entities) <==> (old(e in S.entities) && !old(gone(S, P.ID, e)))
+//@     ensures {C06,C01} forall e: uint32 :: e in S.entities ==> S.entities[e] == old(S.entities[e])
+//@     ensures {C06,C12,C01} forall t: uint32, e: uint32 :: (hasComp(C, t, e) <==> (old(hasComp(C, t, e)) && !old(gone(S, P.ID, e)))) && (hasComp(C, t, e) ==> compAt(C, t, e) == old(compAt(C, t, e)))
+//@     ensures {C06,C13,C01} forall t: uint32, p: uint32 :: subscribed(C, t, p) <==> (old(subscribed(C, t, p)) && p != P.ID)
+//@     ensures {C06,C01} forall p: uint32 :: (p in S.participants) <==> (old(p in S.participants) && p != P.ID)
+//@     ensures {C06,C01} forall p: uint32 :: p in S.participants ==> S.participants[p] == old(S.participants[p])
+//@     ensures {C06,C02,C01} forall e: uint32 :: evcount(Broadcast, hagallpb.EntityDeleteBroadcast, EntityId, e) == old(evcount(Broadcast, hagallpb.EntityDeleteBroadcast, EntityId, e)) + ite(old(gone(S, P.ID, e)) && !flag(h.FeatureFlags, featureflag.FlagDisableEntityDeleteBroadcast), 1, 0)
+//@     ensures {C07,C01} (len(S.participants) == 0) <==> !registered(R, S)
+//@     ensures {C07,C01} len(S.participants) == 0 ==> once_done(S.closeOnce)
+//@     emits {C06,C02,C01} [when h.stopFrameHandling != nil =>> callfn(h.stopFrameHandling); when !flag(h.FeatureFlags, featureflag.FlagDisableParticipantLeaveBroadcast) =>> Broadcast(S, P, hagallpb.ParticipantLeaveBroadcast{Type: hagallpb.MsgType_MSG_TYPE_PARTICIPANT_LEAVE_BROADCAST, ParticipantId: P.ID})]
 //@   complete behaviours
 //@   disjoint behaviours
 //@   loop 1:
@@ -588,7 +606,7 @@ package websocket
 //@     invariant forall t: uint32, p: uint32 :: subscribed(C, t, p) <==> (old(subscribed(C, t, p)) && p != P.ID)
 //@     invariant forall p: uint32 :: ((p in S.participants) <==> old(p in S.participants)) && (p in S.participants ==> S.participants[p] == old(S.participants[p]))
 //@     invariant forall e: uint32 :: evcount(Broadcast, hagallpb.EntityDeleteBroadcast, EntityId, e) == old(evcount(Broadcast, hagallpb.EntityDeleteBroadcast, EntityId, e)) + ite(e in V && old(gone(S, P.ID, e)) && !flag(h.FeatureFlags, featureflag.FlagDisableEntityDeleteBroadcast), 1, 0)
-//@     emits {C06,C02} [when $id in S.entities && !S.entities[$id].Persist && !flag(h.FeatureFlags, featureflag.FlagDisableEntityDeleteBroadcast) =>> Broadcast(S, P, hagallpb.EntityDeleteBroadcast{Type: hagallpb.MsgType_MSG_TYPE_ENTITY_DELETE_BROADCAST, EntityId: $id})]
+//@     emits {C06,C02,C01} [when $id in S.entities && !S.entities[$id].Persist && !flag(h.FeatureFlags, featureflag.FlagDisableEntityDeleteBroadcast) =>> Broadcast(S, P, hagallpb.EntityDeleteBroadcast{Type: hagallpb.MsgType_MSG_TYPE_ENTITY_DELETE_BROADCAST, EntityId: $id})]
 
 //@ func (*websocket.RealtimeHandler).HandleDisconnect
 //@   property C06
@@ -621,44 +639,43 @@ package websocket
 //@   requires forall j: int :: 0 <= j && j < len(h.Modules) ==> h.Modules[j] != nil
 //@   requires h.FrameDuration > 0 && h.Sessions.ids.currentID < 4294967295
 //@   ensures wfHandler(h) && wfRegistry(h.Sessions)
-//@   ensures {C07} joined(h) ==> registered(h.Sessions, h.currentSession)
+//@   ensures {C07,C01} joined(h) ==> registered(h.Sessions, h.currentSession)
 //@   behaviour undecodable:
 //@     assumes !decode_ok(msg)
 //@     ensures {C04} result != nil && unchanged_world()
-//@     emits {C04,C02} []
+//@     emits {C04,C02,C01} []
 //@   behaviour already_joined:
 //@     assumes decode_ok(msg) && already
 //@     ensures {C04} result == nil && unchanged_world()
-//@     emits {C04,C02} [send(respond, hagallpb.ErrorResponse{Type: hagallpb.MsgType_MSG_TYPE_ERROR_RESPONSE, RequestId: req.RequestId, Code: hagallpb.ErrorCode_ERROR_CODE_SESSION_ALREADY_JOINED})]
+//@     emits {C04,C02,C01} [send(respond, hagallpb.ErrorResponse{Type: hagallpb.MsgType_MSG_TYPE_ERROR_RESPONSE, RequestId: req.RequestId, Code: hagallpb.ErrorCode_ERROR_CODE_SESSION_ALREADY_JOINED})]
 //@   behaviour not_found:
 //@     assumes decode_ok(msg) && !already && sid != "" && !found
 //@     ensures {C04} result == nil && unchanged_except("models.SessionStore.", "once:models.SessionStore.", "mapdom:models.SessionStore.", "mapcard:models.SessionStore.", "mapval:models.SessionStore.")
-//@     emits {C04,C02} [send(respond, hagallpb.ErrorResponse{Type: hagallpb.MsgType_MSG_TYPE_ERROR_RESPONSE, RequestId: req.RequestId, Code: hagallpb.ErrorCode_ERROR_CODE_NOT_FOUND})]
+//@     emits {C04,C02,C01} [send(respond, hagallpb.ErrorResponse{Type: hagallpb.MsgType_MSG_TYPE_ERROR_RESPONSE, RequestId: req.RequestId, Code: hagallpb.ErrorCode_ERROR_CODE_NOT_FOUND})]
 //@   behaviour create_fresh:
 //@     assumes decode_ok(msg) && !joined(h) && sid == "" && !found
 //@     ensures {C04} result == nil
-//@     ensures {C07} joined(h) && fresh(h.currentSession) && registered(R, h.currentSession)
+//@     ensures {C07,C01} joined(h) && fresh(h.currentSession) && registered(R, h.currentSession)
 //@     ensures {C10} live(R.ids, h.currentSession.ID) && forall x: uint32 :: x == h.currentSession.ID ==> !old(live(R.ids, x))
-//@     ensures {C07} len(h.currentSession.participants) == 1 && len(h.currentSession.entities) == 0 && h.currentParticipant.ID == 1 && h.currentParticipant.Responder == respond
-//@     ensures {C07} forall g: string :: g != gid(serverid(R.DiscoveryService), h.currentSession.ID) ==> ((g in R.sessions) <==> (old(once_done(R.initOnce)) && old(g in R.sessions))) && (g in R.sessions ==> R.sessions[g] == old(R.sessions[g]))
-//@     ensures {C07} gaugetotal(sessions) == old(gaugetotal(sessions)) + 1
-//@     emits {C04,C02} [send(respond, hagallpb.ParticipantJoinResponse{Type: hagallpb.MsgType_MSG_TYPE_PARTICIPANT_JOIN_RESPONSE, RequestId: req.RequestId, SessionId: gid(serverid(R.DiscoveryService), h.currentSession.ID), SessionUuid: h.currentSession.SessionUUID, ParticipantId: 1}); when !flag(h.FeatureFlags, featureflag.FlagDisableSessionState) =>> send(respond, hagallpb.SessionState{Type: hagallpb.MsgType_MSG_TYPE_SESSION_STATE}); when !flag(h.FeatureFlags, featureflag.FlagDisableParticipantJoinBroadcast) =>> Broadcast(h.currentSession, h.currentParticipant, hagallpb.ParticipantJoinBroadcast{Type: hagallpb.MsgType_MSG_TYPE_PARTICIPANT_JOIN_BROADCAST, OriginTimestamp: req.Timestamp, ParticipantId: 1})]
+//@     ensures {C07,C01} len(h.currentSession.participants) == 1 && len(h.currentSession.entities) == 0 && h.currentParticipant.ID == 1 && h.currentParticipant.Responder == respond
+//@     ensures {C07,C01} forall g: string :: g != gid(serverid(R.DiscoveryService), h.currentSession.ID) ==> ((g in R.sessions) <==> (old(once_done(R.initOnce)) && old(g in R.sessions))) && (g in R.sessions ==> R.sessions[g] == old(R.sessions[g]))
+//@     ensures {C07,C01} gaugetotal(sessions) == old(gaugetotal(sessions)) + 1
+//@     ensures {C01} !flag(h.FeatureFlags, featureflag.FlagDisableSessionState) ==> snapParts(h.currentSession, PS) && snapEnts(h.currentSession, ES) && snapComps(h.currentSession.entityComponents, CS)
+//@     emits {C04,C02,C01} [send(respond, hagallpb.ParticipantJoinResponse{Type: hagallpb.MsgType_MSG_TYPE_PARTICIPANT_JOIN_RESPONSE, RequestId: req.RequestId, SessionId: gid(serverid(R.DiscoveryService), h.currentSession.ID), SessionUuid: h.currentSession.SessionUUID, ParticipantId: 1}); when !flag(h.FeatureFlags, featureflag.FlagDisableSessionState) =>> send(respond, hagallpb.SessionState{Type: hagallpb.MsgType_MSG_TYPE_SESSION_STATE, Participants: bind(PS), Entities: bind(ES), EntityComponents: bind(CS)}); when !flag(h.FeatureFlags, featureflag.FlagDisableParticipantJoinBroadcast) =>> Broadcast(h.currentSession, h.currentParticipant, hagallpb.ParticipantJoinBroadcast{Type: hagallpb.MsgType_MSG_TYPE_PARTICIPANT_JOIN_BROADCAST, OriginTimestamp: req.Timestamp, ParticipantId: 1})]
 //@   behaviour join_fresh:
 //@     assumes decode_ok(msg) && !joined(h) && found
 //@     ensures {C04} result == nil
-//@     ensures {C07} h.currentSession == T && registered(R, T) && same_contents(R.sessions)
-//@     ensures {C10,C05} h.currentParticipant.ID == old(T.participantIDs.currentID) + 1 && !old((T.participantIDs.currentID + 1) in T.participants) && member(T, h.currentParticipant) && h.currentParticipant.Responder == respond && fresh(h.currentParticipant)
-//@     ensures {C07} forall p: uint32 :: p != h.currentParticipant.ID ==> ((p in T.participants) <==> old(p in T.participants)) && (p in T.participants ==> T.participants[p] == old(T.participants[p]))
-//@     ensures {C07} same_contents(T.entities) && forall t: uint32, e: uint32 :: (hasComp(T.entityComponents, t, e) <==> old(hasComp(T.entityComponents, t, e)))
-//@     ensures {C01} !flag(h.FeatureFlags, featureflag.FlagDisableSessionState) ==> len(PS) == len(T.participants) && (forall j: int :: 0 <= j && j < len(PS) ==> PS[j] != nil && PS[j].Id in T.participants) && (forall k: uint32 :: k in T.participants ==> exists j: int :: 0 <= j && j < len(PS) && PS[j].Id == k)
-//@     ensures {C01} !flag(h.FeatureFlags, featureflag.FlagDisableSessionState) ==> len(ES) == len(T.entities) && (forall k: uint32 :: k in T.entities ==> exists j: int :: 0 <= j && j < len(ES) && ES[j].Id == k)
-//@     ensures {C01} !flag(h.FeatureFlags, featureflag.FlagDisableSessionState) ==> (forall j: int :: 0 <= j && j < len(ES) ==> ES[j] != nil && ES[j].Id in T.entities && ES[j].ParticipantId == T.entities[ES[j].Id].ParticipantID && ES[j].Flag == T.entities[ES[j].Id].Flag && ES[j].Pose != nil && ES[j].Pose.Px == T.entities[ES[j].Id].pose.PX && ES[j].Pose.Py == T.entities[ES[j].Id].pose.PY && ES[j].Pose.Pz == T.entities[ES[j].Id].pose.PZ && ES[j].Pose.Rx == T.entities[ES[j].Id].pose.RX && ES[j].Pose.Ry == T.entities[ES[j].Id].pose.RY && ES[j].Pose.Rz == T.entities[ES[j].Id].pose.RZ && ES[j].Pose.Rw == T.entities[ES[j].Id].pose.RW)
-//@     ensures {C01} !flag(h.FeatureFlags, featureflag.FlagDisableSessionState) ==> (forall j: int :: 0 <= j && j < len(CS) ==> CS[j] != nil && hasComp(T.entityComponents, CS[j].EntityComponentTypeId, CS[j].EntityId) && compAt(T.entityComponents, CS[j].EntityComponentTypeId, CS[j].EntityId) == CS[j]) && (forall t: uint32, e: uint32 :: hasComp(T.entityComponents, t, e) ==> exists j: int :: 0 <= j && j < len(CS) && CS[j] == compAt(T.entityComponents, t, e))
-//@     emits {C04,C02} [send(respond, hagallpb.ParticipantJoinResponse{Type: hagallpb.MsgType_MSG_TYPE_PARTICIPANT_JOIN_RESPONSE, RequestId: req.RequestId, SessionId: sid, SessionUuid: T.SessionUUID, ParticipantId: h.currentParticipant.ID}); when !flag(h.FeatureFlags, featureflag.FlagDisableSessionState) =>> send(respond, hagallpb.SessionState{Type: hagallpb.MsgType_MSG_TYPE_SESSION_STATE, Participants: bind(PS), Entities: bind(ES), EntityComponents: bind(CS)}); when !flag(h.FeatureFlags, featureflag.FlagDisableParticipantJoinBroadcast) =>> Broadcast(T, h.currentParticipant, hagallpb.ParticipantJoinBroadcast{Type: hagallpb.MsgType_MSG_TYPE_PARTICIPANT_JOIN_BROADCAST, OriginTimestamp: req.Timestamp, ParticipantId: h.currentParticipant.ID})]
+//@     ensures {C07,C01} h.currentSession == T && registered(R, T) && same_contents(R.sessions)
+//@     ensures {C10,C05,C01} h.currentParticipant.ID == old(T.participantIDs.currentID) + 1 && !old((T.participantIDs.currentID + 1) in T.participants) && member(T, h.currentParticipant) && h.currentParticipant.Responder == respond && fresh(h.currentParticipant)
+//@     ensures {C07,C01} forall p: uint32 :: p != h.currentParticipant.ID ==> ((p in T.participants) <==> old(p in T.participants)) && (p in T.participants ==> T.participants[p] == old(T.participants[p]))
+//@     ensures {C07,C01} same_contents(T.entities) && forall t: uint32, e: uint32 :: (hasComp(T.entityComponents, t, e) <==> old(hasComp(T.entityComponents, t, e)))
+//@     ensures {C01} !flag(h.FeatureFlags, featureflag.FlagDisableSessionState) ==> snapParts(h.currentSession, PS) && snapEnts(h.currentSession, ES) && snapComps(h.currentSession.entityComponents, CS)
+//@     emits {C04,C02,C01} [send(respond, hagallpb.ParticipantJoinResponse{Type: hagallpb.MsgType_MSG_TYPE_PARTICIPANT_JOIN_RESPONSE, RequestId: req.RequestId, SessionId: sid, SessionUuid: T.SessionUUID, ParticipantId: h.currentParticipant.ID}); when !flag(h.FeatureFlags, featureflag.FlagDisableSessionState) =>> send(respond, hagallpb.SessionState{Type: hagallpb.MsgType_MSG_TYPE_SESSION_STATE, Participants: bind(PS), Entities: bind(ES), EntityComponents: bind(CS)}); when !flag(h.FeatureFlags, featureflag.FlagDisableParticipantJoinBroadcast) =>> Broadcast(T, h.currentParticipant, hagallpb.ParticipantJoinBroadcast{Type: hagallpb.MsgType_MSG_TYPE_PARTICIPANT_JOIN_BROADCAST, OriginTimestamp: req.Timestamp, ParticipantId: h.currentParticipant.ID})]
 //@   behaviour switch:
 //@     assumes decode_ok(msg) && !already && joined(h) && (sid == "" || found)
 //@     ensures {C04} result == nil && joined(h)
-//@     emits {C04,C06,C02} [leaveSession(h); send(respond, hagallpb.ParticipantJoinResponse{Type: hagallpb.MsgType_MSG_TYPE_PARTICIPANT_JOIN_RESPONSE, RequestId: req.RequestId, SessionId: gid(serverid(R.DiscoveryService), h.currentSession.ID), SessionUuid: h.currentSession.SessionUUID, ParticipantId: h.currentParticipant.ID}); when !flag(h.FeatureFlags, featureflag.FlagDisableSessionState) =>> send(respond, hagallpb.SessionState{Type: hagallpb.MsgType_MSG_TYPE_SESSION_STATE}); when !flag(h.FeatureFlags, featureflag.FlagDisableParticipantJoinBroadcast) =>> Broadcast(h.currentSession, h.currentParticipant, hagallpb.ParticipantJoinBroadcast{Type: hagallpb.MsgType_MSG_TYPE_PARTICIPANT_JOIN_BROADCAST, OriginTimestamp: req.Timestamp, ParticipantId: h.currentParticipant.ID})]
+//@     ensures {C01} !flag(h.FeatureFlags, featureflag.FlagDisableSessionState) ==> snapParts(h.currentSession, PS) && snapEnts(h.currentSession, ES) && snapComps(h.currentSession.entityComponents, CS)
+//@     emits {C04,C06,C02,C01} [leaveSession(h); send(respond, hagallpb.ParticipantJoinResponse{Type: hagallpb.MsgType_MSG_TYPE_PARTICIPANT_JOIN_RESPONSE, RequestId: req.RequestId, SessionId: gid(serverid(R.DiscoveryService), h.currentSession.ID), SessionUuid: h.currentSession.SessionUUID, ParticipantId: h.currentParticipant.ID}); when !flag(h.FeatureFlags, featureflag.FlagDisableSessionState) =>> send(respond, hagallpb.SessionState{Type: hagallpb.MsgType_MSG_TYPE_SESSION_STATE, Participants: bind(PS), Entities: bind(ES), EntityComponents: bind(CS)}); when !flag(h.FeatureFlags, featureflag.FlagDisableParticipantJoinBroadcast) =>> Broadcast(h.currentSession, h.currentParticipant, hagallpb.ParticipantJoinBroadcast{Type: hagallpb.MsgType_MSG_TYPE_PARTICIPANT_JOIN_BROADCAST, OriginTimestamp: req.Timestamp, ParticipantId: h.currentParticipant.ID})]
 //@   complete behaviours
 //@   disjoint behaviours
 //@   loop 1:
